@@ -96,6 +96,13 @@ def dv(k, depth=0):
         if inner is not None and inner[0] in ('vec', 'mat') and k[3]:
             return ('bad', 'entries of the value vector are overwritten (data-dependent store) before it is used')
         return inner if inner is not None and inner[0] == 'bad' else None
+    if h == 'opq' and len(k) == 5 and k[1] == 'np.where':
+        # np.where(test, replacement, values): some entries of the value vector are replaced by something else before it is used
+        for alt in (k[3], k[4]):
+            inner = dv(alt, depth + 1)
+            if inner is not None and inner[0] in ('vec', 'mat'):
+                return ('bad', 'entries of the value vector are replaced conditionally (np.where) before it is used')
+        return None
     if h == 'opq' and len(k) >= 3:
         fn = k[1]
         if fn in ('values',) and len(k) == 3: return ('vec', [(X, k)])
